@@ -96,8 +96,9 @@ type vfcfbCore struct {
 	failedRead  *vfcfbOp
 	afterMut    func(op vfcfbOp) // online invariant checker; runs after the mutation is applied, serialised
 	checkMu     sync.Mutex
-	lastMod     map[string]time.Time // served LastModified per object name (overrides the in-memory bucket's)
-	noLastMod   bool                 // serve no LastModified at all
+	lastMod     map[string]time.Time           // served LastModified per object name (overrides the in-memory bucket's)
+	noLastMod   bool                           // serve no LastModified at all
+	jitter      func(op vfcfbOp) time.Duration // optional latency of a successful read, a pure function of the operation (schedule diversity at the client boundary)
 }
 
 func vfcfbNew() *vfcfbCore {
@@ -324,8 +325,17 @@ func (v *vfcfbView) GetRange(ctx context.Context, name string, off, length int64
 }
 
 func (v *vfcfbView) Exists(ctx context.Context, name string) (bool, error) {
-	if _, err := v.core.begin(v, "exists", name, false); err != nil {
+	op, err := v.core.begin(v, "exists", name, false)
+	if err != nil {
 		return false, err
+	}
+	v.core.mu.Lock()
+	j := v.core.jitter
+	v.core.mu.Unlock()
+	if j != nil {
+		if d := j(op); d > 0 {
+			time.Sleep(d)
+		}
 	}
 	if err := ctx.Err(); err != nil {
 		return false, err
